@@ -412,6 +412,15 @@ func genC15(e *emitter, r *rng, tier string) {
 			b.handles = append(b.handles, hinfo{s, maxInt})
 			h = 1
 		}
+		farEnd := 0
+		if r.coin(35) {
+			// a BOUNDED view of the sequence whose end lies far beyond the match (or at the top of
+			// the int range): the search must not look at the rest of the view
+			farEnd = r.pick([]int{20000, 200000, 3000000, maxInt - 1, maxInt})
+			b.add("we:%d:%d", h, farEnd)
+			b.handles = append(b.handles, hinfo{b.handles[h].lo, farEnd})
+			h = len(b.handles) - 1
+		}
 		b.add("cons")
 		q := planted[r.intn(len(planted))]
 		if ns.length >= 0 && q+6 > ns.length {
